@@ -26,6 +26,7 @@ import (
 	"math"
 	"math/big"
 	"os"
+	"regexp"
 	"os/exec"
 	"path/filepath"
 	"sort"
@@ -627,6 +628,74 @@ func (r *reifier) gen(T types.Type, ieee bool) string {
 	return r.fail("no generator for type %v", T)
 }
 
+// genBytes: generator for a []byte parameter or a ghost byte stream (witness search). When the solver
+// produced a model, the model's bytes are the seed that the search mutates (a failed inductive step
+// gives a model that need not be reachable, but its bytes usually carry the magic numbers that let a
+// parser get as far as the failing statement); otherwise the bytes are random.
+func (r *reifier) genBytes(p replayParam, o *Obligation) string {
+	isStream := false
+	switch x := p.V.(type) {
+	case SliceVal:
+		sl, ok := p.T.Underlying().(*types.Slice)
+		if !ok {
+			return ""
+		}
+		if b, ok := sl.Elem().Underlying().(*types.Basic); !ok || b.Kind() != types.Uint8 {
+			return ""
+		}
+	case IfaceVal:
+		pv, ok := x.V.(PtrVal)
+		if !ok || pv.Cell == nil {
+			return ""
+		}
+		if _, ok := r.st.mem[pv.Cell].(Stream); !ok {
+			return ""
+		}
+		isStream = true
+	default:
+		return ""
+	}
+	seed, pos := "", int64(0)
+	if o.Result == "sat" && time.Until(replayDeadline) > 30*time.Second {
+		saveCap := replayCap
+		replayCap = 64
+		lit := ""
+		for round := 0; round < 6; round++ {
+			r.need, r.missing, r.err = nil, false, ""
+			lit = r.value(p.V, p.T, p.Name)
+			if r.err != "" || !r.missing {
+				break
+			}
+			if !r.ms.query(r.need) {
+				lit = ""
+				break
+			}
+		}
+		if r.missing || r.err != "" {
+			lit = ""
+		}
+		r.need, r.missing, r.err = nil, false, ""
+		replayCap = saveCap
+		if m := regexp.MustCompile(`^vcNewReader\("([0-9a-f]*)", (\d+), chunk\)$`).FindStringSubmatch(lit); m != nil {
+			seed = m[1]
+			pos, _ = strconv.ParseInt(m[2], 10, 64)
+		} else if strings.HasPrefix(lit, "[]byte{") {
+			var sb strings.Builder
+			for _, m := range regexp.MustCompile(`byte\((\d+)\)`).FindAllStringSubmatch(lit, -1) {
+				v, _ := strconv.Atoi(m[1])
+				fmt.Fprintf(&sb, "%02x", v&0xff)
+			}
+			seed = sb.String()
+		}
+	}
+	delete(r.inputs, strings.TrimPrefix(p.Name, "*"))
+	if isStream {
+		r.streams[strings.TrimPrefix(p.Name, "*")] = true
+		return fmt.Sprintf("vcNewReaderBytes(vcMutBytes(%q), %d, chunk)", seed, pos)
+	}
+	return fmt.Sprintf("%s(vcMutBytes(%q))", r.typeStr(p.T), seed)
+}
+
 func cmpLe(t Term) string {
 	if t.S.K == KBV {
 		return "bvsle"
@@ -1097,14 +1166,58 @@ func (tr *specToGo) lookupLocal(name string) (string, bool) {
 
 const replayHelpers = `
 type vcReader struct {
-	data  []byte
-	pos   int
-	chunk int
+	data   []byte
+	pos    int
+	chunk  int
+	frozen bool
+	fpos   int
 }
+
+// every reader handed to the call is registered; vcFreeze records the positions reached by the call
+// itself, so that clauses which drain a returned stream afterwards do not disturb r.pos / r.avail
+var vcReaders []*vcReader
+
+type vcDrain struct {
+	data []byte
+	err  error
+}
+
+var vcDrained = map[interface{}]*vcDrain{}
 
 func vcNewReader(h string, pos int64, chunk int) *vcReader {
 	d, _ := hex.DecodeString(h)
-	return &vcReader{data: d, pos: int(pos), chunk: chunk}
+	r := &vcReader{data: d, pos: int(pos), chunk: chunk}
+	vcReaders = append(vcReaders, r)
+	return r
+}
+
+func vcFreeze() {
+	for _, r := range vcReaders {
+		r.frozen, r.fpos = true, r.pos
+	}
+}
+
+func vcResetReaders() {
+	vcReaders = vcReaders[:0]
+	vcDrained = map[interface{}]*vcDrain{}
+}
+
+// vcDrainOf reads a stream returned by the call to its end (once) and keeps what it delivered
+func vcDrainOf(r interface{}) *vcDrain {
+	if d, ok := vcDrained[r]; ok {
+		return d
+	}
+	rd, ok := r.(io.Reader)
+	if !ok {
+		panic(fmt.Sprintf("not a stream: %T", r))
+	}
+	b, err := io.ReadAll(io.LimitReader(rd, 1<<24))
+	if err == nil {
+		err = io.EOF
+	}
+	d := &vcDrain{data: b, err: err}
+	vcDrained[r] = d
+	return d
 }
 
 func (r *vcReader) Read(p []byte) (int, error) {
@@ -1135,11 +1248,27 @@ func (r *vcReader) ReadByte() (byte, error) {
 	return b, nil
 }
 
-func vcD(r interface{}) []byte          { return r.(*vcReader).data }
-func vcStreamPos(r interface{}) int     { return r.(*vcReader).pos }
-func vcStreamLen(r interface{}) int     { return len(vcD(r)) }
-func vcStreamAvail(r interface{}) int   { return len(vcD(r)) - r.(*vcReader).pos }
-func vcStreamErr(r interface{}) error   { return io.EOF }
+func vcD(r interface{}) []byte {
+	if v, ok := r.(*vcReader); ok {
+		return v.data
+	}
+	return vcDrainOf(r).data
+}
+func vcStreamPos(r interface{}) int {
+	v := r.(*vcReader)
+	if v.frozen {
+		return v.fpos
+	}
+	return v.pos
+}
+func vcStreamLen(r interface{}) int   { return len(vcD(r)) }
+func vcStreamAvail(r interface{}) int { return len(vcD(r)) - vcStreamPos(r) }
+func vcStreamErr(r interface{}) error {
+	if _, ok := r.(*vcReader); ok {
+		return io.EOF
+	}
+	return vcDrainOf(r).err
+}
 func vcU8(r interface{}, o int64) uint8 { return vcD(r)[o] }
 func vcBE16(r interface{}, o int64) uint16 { return uint16(vcD(r)[o])<<8 | uint16(vcD(r)[o+1]) }
 func vcLE16(r interface{}, o int64) uint16 { return uint16(vcD(r)[o+1])<<8 | uint16(vcD(r)[o]) }
@@ -1189,7 +1318,14 @@ func vcIte[T any](c bool, a, b T) T {
 	}
 	return b
 }
-func vcDet3[M ~[3][3]float64](m M) float64 {
+func vcDet3(x interface{}) float64 {
+	v := reflect.ValueOf(x)
+	var m [3][3]float64
+	for i := 0; i < 3; i++ {
+		for j := 0; j < 3; j++ {
+			m[i][j] = v.Index(i).Index(j).Float()
+		}
+	}
 	return m[0][0]*(m[1][1]*m[2][2]-m[2][1]*m[1][2]) - m[1][0]*(m[0][1]*m[2][2]-m[2][1]*m[0][2]) + m[2][0]*(m[0][1]*m[1][2]-m[1][1]*m[0][2])
 }
 
@@ -1373,6 +1509,68 @@ func vcRandF() float64 {
 	return vcRng.Float64()
 }
 
+func vcRandByte() byte {
+	switch vcRng.Intn(6) {
+	case 0:
+		return 0
+	case 1:
+		return 1
+	case 2:
+		return 0xff
+	case 3:
+		return byte(vcRng.Intn(8))
+	}
+	return byte(vcRng.Intn(256))
+}
+
+// vcMutBytes: the seed (bytes of the solver's model, possibly empty) with a few bytes changed, cut
+// short or extended; now and then entirely random bytes
+func vcMutBytes(seedHex string) []byte {
+	seed, _ := hex.DecodeString(seedHex)
+	var b []byte
+	if len(seed) == 0 || vcRng.Intn(6) == 0 {
+		n := vcRng.Intn(40)
+		if vcRng.Intn(4) == 0 {
+			n = vcRng.Intn(300)
+		}
+		b = make([]byte, n)
+		for i := range b {
+			b[i] = vcRandByte()
+		}
+	} else {
+		b = append([]byte(nil), seed...)
+	}
+	for k := vcRng.Intn(4); k > 0 && len(b) > 0; k-- {
+		b[vcRng.Intn(len(b))] = vcRandByte()
+	}
+	switch vcRng.Intn(8) {
+	case 0:
+		b = b[:vcRng.Intn(len(b)+1)]
+	case 1:
+		for k := 1 + vcRng.Intn(16); k > 0; k-- {
+			b = append(b, vcRandByte())
+		}
+	case 2:
+		ext := make([]byte, 4000+vcRng.Intn(6000))
+		if vcRng.Intn(2) == 0 {
+			for i := range ext {
+				ext[i] = byte(vcRng.Intn(256))
+			}
+		}
+		b = append(b, ext...)
+	}
+	return b
+}
+
+func vcNewReaderBytes(b []byte, pos int64, chunk int) *vcReader {
+	if pos < 0 || pos > int64(len(b)) {
+		pos = 0
+	}
+	r := &vcReader{data: b, pos: int(pos), chunk: chunk}
+	vcReaders = append(vcReaders, r)
+	return r
+}
+
 func vcRandFIEEE() float64 {
 	switch vcRng.Intn(12) {
 	case 0:
@@ -1422,7 +1620,11 @@ func buildReplay(eng *Engine, o *Obligation, ent *replayEntry, search bool) (src
 			case "mathreal":
 				g = "vcRandF()"
 			default:
-				g = r.gen(p.T, ent.mode == "ieee")
+				if bg := r.genBytes(p, o); bg != "" {
+					g = bg
+				} else {
+					g = r.gen(p.T, ent.mode == "ieee")
+				}
 			}
 			lits = append(lits, g)
 		}
@@ -1517,7 +1719,9 @@ func buildReplay(eng *Engine, o *Obligation, ent *replayEntry, search bool) (src
 	var body strings.Builder
 	for i, p := range all {
 		fmt.Fprintf(&body, "\t%s := %s\n\t_ = %s\n", goIdent(p.Name), lits[i], goIdent(p.Name))
-		if search {
+		if search && strings.HasPrefix(lits[i], "vcNewReaderBytes(") {
+			fmt.Fprintf(&body, "\tvcSay(\"VCGO-REPLAY input %s=bytes(hex) %%x pos=%%d\\n\", %s.data, %s.pos)\n", goIdent(p.Name), goIdent(p.Name), goIdent(p.Name))
+		} else if search {
 			fmt.Fprintf(&body, "\tvcSay(\"VCGO-REPLAY input %s=%%#v\\n\", %s)\n", goIdent(p.Name), goIdent(p.Name))
 		}
 	}
@@ -1606,6 +1810,7 @@ func buildReplay(eng *Engine, o *Obligation, ent *replayEntry, search bool) (src
 			fmt.Fprintf(&body, "\t%s\n", call)
 		}
 		body.WriteString("\tvcSay(\"VCGO-REPLAY returned\\n\")\n")
+		body.WriteString("\tvcFreeze()\n")
 	}
 	for _, c := range clauses {
 		if c.Skip != "" {
@@ -1657,7 +1862,7 @@ func buildReplay(eng *Engine, o *Obligation, ent *replayEntry, search bool) (src
 		fmt.Fprintf(&sb, "\nfunc %s(x %s) %s {\n\tf := reflect.ValueOf(x).Elem().FieldByName(%q)\n\treturn *(*%s)(unsafe.Pointer(f.UnsafeAddr()))\n}\n", a.fn, a.recv, a.typ, a.field, a.typ)
 	}
 	sb.WriteString("\nvar _ = hex.DecodeString\nvar _ = zlib.NewReader\nvar _ = bytes.NewReader\nvar _ = reflect.ValueOf\nvar _ = math.Abs\nvar _ io.Reader\nvar _ = time.Now\nvar _ = rand.New\n")
-	sb.WriteString("\nfunc vcRun(chunk int) {\n\tdefer func() {\n\t\tif x := recover(); x != nil {\n\t\t\tvcPanicked = true\n\t\t\tvcSay(\"VCGO-REPLAY panic=%v\\n\", x)\n\t\t}\n\t}()\n")
+	sb.WriteString("\nfunc vcRun(chunk int) {\n\tvcResetReaders()\n\tdefer func() {\n\t\tif x := recover(); x != nil {\n\t\t\tvcPanicked = true\n\t\t\tvcSay(\"VCGO-REPLAY panic=%v\\n\", x)\n\t\t}\n\t}()\n")
 	sb.WriteString(body.String())
 	sb.WriteString("}\n\nfunc TestVcgoReplay(t *testing.T) {\n")
 	if search {
@@ -1669,12 +1874,13 @@ func buildReplay(eng *Engine, o *Obligation, ent *replayEntry, search bool) (src
 	for ; i < 2000000 && time.Since(start) < 4*time.Second; i++ {
 		vcBad, vcPanicked = false, false
 		vcRng = rand.New(rand.NewSource(i))
-		vcRun(0)
+		chunk := []int{0, 0, 1, 3, 7}[i%5]
+		vcRun(chunk)
 		if vcBad || (vcPanicked && wantPanic) {
-			fmt.Printf("VCGO-REPLAY search found a failing input at trial %d\n", i)
+			fmt.Printf("VCGO-REPLAY search found a failing input at trial %d (reader-chunk=%d)\n", i, chunk)
 			vcReport = true
 			vcRng = rand.New(rand.NewSource(i))
-			vcRun(0)
+			vcRun(chunk)
 			return
 		}
 	}
@@ -1784,7 +1990,12 @@ func tryReplay(eng *Engine, o *Obligation, dir string) (rr replayResult) {
 	}
 	var notes []string
 	var out string
-	for _, search := range []bool{false, true} {
+	// an obligation the solvers left undecided rarely yields a model within the budget: search first
+	order := []bool{false, true}
+	if o.Result != "sat" {
+		order = []bool{true, false}
+	}
+	for _, search := range order {
 		var src, why string
 		var inputs map[string]string
 		if !search && o.Kind == "generate" {
@@ -1794,7 +2005,8 @@ func tryReplay(eng *Engine, o *Obligation, dir string) (rr replayResult) {
 			for _, c := range []int64{48, 512, 4096} {
 				replayCap = c
 				src, inputs, why = buildReplay(eng, o, ent, false)
-				if src != "" || !strings.HasPrefix(why, "no model values") {
+				// a larger cap only helps when the capped query was refuted, not when it timed out
+				if src != "" || !strings.HasPrefix(why, "no model values") || !strings.Contains(why, "unsat") {
 					break
 				}
 			}
@@ -1835,12 +2047,13 @@ func tryReplay(eng *Engine, o *Obligation, dir string) (rr replayResult) {
 		}
 		if rr.source == "" || ok {
 			rr.source, rr.pkgDir, rr.inputs = src, pkgDir, inputs
-		}
-		if inputs["(model)"] == "pruned" {
-			rr.note = "candidate input taken from the cone-of-influence query's model"
-		}
-		if search {
-			rr.note = "input found by pseudo-random search over the contract's preconditions (fixed seeds; the test source re-runs the same search)"
+			rr.note = ""
+			if inputs["(model)"] == "pruned" {
+				rr.note = "candidate input taken from the cone-of-influence query's model"
+			}
+			if search {
+				rr.note = "input found by pseudo-random search over the contract's preconditions (fixed seeds; the test source re-runs the same search)"
+			}
 		}
 		notes = append(notes, what+": "+text)
 		if ok {
